@@ -32,10 +32,23 @@ func (o Op) String() string {
 		return fmt.Sprintf("sched-provider-fails(p%d,node#%d)", o.A, o.B)
 	case "schedlost":
 		return fmt.Sprintf("sched-bind-response-lost(p%d,node#%d)", o.A, o.B)
+	case "stalesync":
+		return fmt.Sprintf("pod-ip-sync-of-deleted-incarnation(%d)", o.A)
 	case "delivercf":
 		return fmt.Sprintf("deliver-provider-fails-once(%d)", o.A)
 	}
 	return fmt.Sprintf("%s(%d)", o.Kind, o.A)
+}
+
+// sameObject: do two pending notifications concern the same API object?
+func sameObject(a, b world.Event) bool {
+	if a.Pod != nil && b.Pod != nil {
+		return a.Pod.Namespace == b.Pod.Namespace && a.Pod.Name == b.Pod.Name
+	}
+	if a.FIP != nil && b.FIP != nil {
+		return a.FIP.Name == b.FIP.Name
+	}
+	return false
 }
 
 // isSched: a scheduling attempt (Filter then Bind on an offered node), with or without a provider failure.
@@ -138,8 +151,22 @@ func (h *HistSys) Enabled(w *world.World) []Op {
 		}
 	}
 	for j := 0; j < len(w.Pending) && j < 2; j++ {
-		if h.Ops["deliver"] {
+		// notifications about one object arrive in order (shared informer); those about different objects may overtake
+		overtakes := false
+		for i := 0; i < j; i++ {
+			if sameObject(w.Pending[i], w.Pending[j]) {
+				overtakes = true
+			}
+		}
+		if h.Ops["deliver"] && !overtakes {
 			ops = append(ops, Op{Kind: "deliver", A: j})
+		}
+	}
+	if h.Ops["stalesync"] {
+		for i := 0; i < h.NPods; i++ {
+			if d := w.Deleted[h.pod(i).Key()]; d != nil && d.Spec.NodeName != "" {
+				ops = append(ops, Op{Kind: "stalesync", A: i})
+			}
 		}
 	}
 	if len(w.Pending) > 0 && h.Ops["deliver"] && h.Ops["cloudfail"] && w.Cloud != nil {
@@ -271,6 +298,8 @@ func (h *HistSys) Apply(w *world.World, op Op) Obs {
 		}
 	case "syncpodips":
 		w.SyncPodIPs()
+	case "stalesync":
+		w.StaleSyncPodIP(h.pod(op.A).Key())
 	case "run":
 		w.SetPhase(h.pod(op.A).Key(), corev1.PodRunning)
 	case "storeloss":
